@@ -21,6 +21,11 @@ def parse_classes(reply: str):
     for ent in left.split(" "):
         name, rest = ent.split("=", 1)
         cname, slots_s = rest[:-1].split("[", 1)
+        selfreg = None
+        if "@" in cname:
+            cname, k = cname.split("@")
+            selfreg = int(k)
+        SELFREG[name] = selfreg
         slots = []
         if slots_s:
             for s in slots_s.split(";"):
@@ -40,7 +45,8 @@ def parse_classes(reply: str):
     return classes, sigs
 
 
-GENERIC = ["VLeaf", "VOne", "VPair", "VRev", "VMany", "VMix", "VOpt", "pkg.mod.VLong"]
+GENERIC = ["VLeaf", "VOne", "VPair", "VRev", "VMany", "VMix", "VOpt", "pkg.mod.VLong", "VSelf"]
+SELFREG = {}   # type name -> number of slots processed before the class registers the object itself (or None)
 PARAMS = ["Parameter", "ViewParameter", "CatParameter", "TransformedParameter"]
 DISTS = ["Distribution", "JointDistributionModel"]
 DIST_CLASSES = {
@@ -115,8 +121,13 @@ class SpecGen:
         cname, slots = self.classes[ty]
         my_id = self.fresh(sp)
         holder = {}  # children are generated into `holder`, in processing order
-        for kind_s, key, extra in slots:
+        early = SELFREG.get(ty)
+        for n_slot, (kind_s, key, extra) in enumerate(slots):
             self._kind = kind
+            if early is not None and n_slot == early:
+                # from here on the object is registered: its own children may refer back to it
+                sp.defined.append((my_id, kind))
+                sp.features.add("self-registered")
             self.fill_slot(sp, ty, kind_s, key, extra, holder, depth, d)
         items += list(holder.items())
         items.append(("id", my_id))
@@ -126,7 +137,8 @@ class SpecGen:
         sp.refs = [((d if c is holder else c), k) for c, k in sp.refs]
         sp.lits.append(d)
         sp.meta[id(d)] = {"depth": depth, "parent": parent}
-        sp.defined.append((my_id, kind))
+        if early is None or early >= len(slots):
+            sp.defined.append((my_id, kind))
         sp.features.add("depth%d" % min(depth, 4))
         return d
 
@@ -367,7 +379,8 @@ def mutate(sp: Spec, rng, which=None):
         key = "x" if d["type"] == "VOne" else rng.choice(["a", "b"])
         tgt = rng.choice([d] + ancestors(sp, d))
         d[key] = tgt["id"]
-        return ("ref-to-enclosing", True, {"id": tgt["id"]})
+        # an enclosing object whose class registers it early may legitimately be referred to from inside
+        return ("ref-to-enclosing", tgt.get("type") != "VSelf", {"id": tgt["id"]})
     if which == "no-id":
         d = rng.choice(lits)
         del d["id"]
